@@ -37,16 +37,33 @@ DROPPED_BY_EXTRACTION = ("type annotations and `# type: ignore` comments, docstr
                          "exception messages (their sub-expressions are still evaluated), __hypothesis_hook__ methods")
 
 
+class UnitTimeout(BaseException):
+    pass
+
+
 def _worker(args):
     modname, spec = args
     try:
+        import faulthandler
         import importlib
+        import signal
+        faulthandler.register(signal.SIGUSR1, all_threads=False)      # kill -USR1 <worker> prints where it is
+        limit = int(os.environ.get("KVC_UNIT_TIMEOUT", "1800"))
+
+        def _expired(signum, frame):
+            raise UnitTimeout(f"unit exceeded {limit}s")
+        signal.signal(signal.SIGALRM, _expired)
+        signal.alarm(limit)
         mod = importlib.import_module(modname)
         t0 = time.time()
         out = mod.run_unit(spec)
+        signal.alarm(0)
         for o in out if isinstance(out, list) else [out]:
             o.setdefault("wall", time.time() - t0)
         return out if isinstance(out, list) else [out]
+    except UnitTimeout as ex:
+        # the engine did not finish this unit: undecided, never a violation and never a hang of the whole check
+        return [{"unit": str(spec), "obligations": [], "undecided": [f"engine timeout: {ex}"], "paths": 0, "time": 0.0}]
     except Exception:
         return [{"unit": str(spec), "crash": traceback.format_exc(), "obligations": [], "undecided": [], "paths": 0,
                  "time": 0.0}]
@@ -92,6 +109,10 @@ def summarise(res, functions=(), level="symbolic"):
             else:
                 d["replay"] = {"confirmed": None, "note": "no input can be constructed for this obligation"}
         obs.append(d)
+    functions = list(functions)
+    for f in getattr(res, "inlined", {}).values():
+        functions.append(dict(function_record(f), role="helper without a contract of its own: its real body is verified "
+                                                       "inside each caller (inlined)"))
     return {"unit": res.unit, "paths": res.paths, "time": round(res.time, 3), "obligations": obs,
             "undecided": [u[1] if isinstance(u, tuple) else str(u) for u in res.undecided],
             "effects": [list(map(str, e)) for e in res.effects][:50], "functions": list(functions)}
